@@ -46,9 +46,19 @@ def denote (x : Str) : Option Rat :=
     | _ => none
   mag.map fun m => if neg then -m else m
 
+/-- the sexagesimal formats of the INDI protocol and the number of smallest units per whole they show
+(a protocol fact, pinned here: the oracle must not move with the table the model regenerates from the code) -/
+def specSexaBase : Nat → Option Nat
+  | 3 => some 60          -- :mm
+  | 5 => some 600         -- :mm.m
+  | 6 => some 3600        -- :mm:ss
+  | 8 => some 36000       -- :mm:ss.s
+  | 9 => some 360000      -- :mm:ss.ss
+  | _ => none
+
 /-- what one unit of the last rendered place is worth -/
 def resolution : Fmt → Option Rat
-  | .sexa frac => (sexaBase frac).map fun b => 1 / (b : Rat)
+  | .sexa frac => (specSexaBase frac).map fun b => 1 / (b : Rat)
   | .f _ _ prec => some (1 / (10 : Rat) ^ prec)
   | .d _ _ _ => some 1
 
